@@ -38,6 +38,8 @@ EQS = {
         (dict(nu=0.05, eta=0.01), False),
     'pysph.sph.gas_dynamics.basic.MPMAccelerations':
         (dict(beta=2.0, update_alpha1=False, update_alpha2=False), True),
+    'pysph.sph.gas_dynamics.basic.ADKEAccelerations':
+        (dict(alpha=1.0, beta=1.0, g1=0.2, g2=0.4, k=1.0, eps=0.1), True),
     'pysph.sph.gas_dynamics.basic.Monaghan92Accelerations':
         (dict(alpha=1.0, beta=2.0), True),
     'pysph.sph.solid_mech.basic.MomentumEquationWithStress':
@@ -293,7 +295,7 @@ def run(tier):
                                m.counters.get('evaluations', 0))
     return harness.finish(
         PROP, tier, 'exploration', m, v, T,
-        rule='module = (one of 15 pair-symmetric momentum equation set-ups, '
+        rule='module = (one of 16 pair-symmetric momentum equation set-ups, '
              'dim, kernel, 1-3 mutually interacting arrays), compiled by the '
              'real generator; per module 16 (100) random closed systems '
              '(positions, masses over 2 decades, per-particle h, random '
